@@ -63,6 +63,11 @@ static const char *const T_C02[] = {
 	"G0 S1>0 | a1 s1 | a1",
 	"slow; S0 | a0 a0 s0 | a0 w0",
 	"slow; S0 | a0 B0 | s0 a0",
+	// the main queue, drained after dispatch_main() (thread 0 leaves; every script is a client thread)
+	"M0 | a0 a0 | a0",
+	"M0 | a0 s0 | a0",
+	"M0 | s0 | s0 a0",
+	"M0 S1>0 | a1 s0 | a0 s1",
 	0
 };
 QP_HARNESS(h_q02, "q02", "C02", T_C02, 0);
